@@ -20,6 +20,8 @@ known_miss = set()
 def variants():
     out = []
     for p in sorted(glob.glob(f"{ROOT}/mutants/*/*.patch")):
+        if os.environ.get("SEEDS_ONLY"):
+            break
         out.append((os.path.basename(os.path.dirname(p)), os.path.basename(p)[:-6], p))
     for p in sorted(glob.glob(f"{ROOT}/seeded/*/patch.diff")):
         d = os.path.basename(os.path.dirname(p))
@@ -34,6 +36,8 @@ def variants():
             if meta.get("known_miss"):
                 known_miss.add("seeded-" + d)
             if meta.get("checked_by"):  # decided by other properties' checks than the one it was written against
+                if isinstance(meta["checked_by"], str):
+                    meta["checked_by"] = [meta["checked_by"]]
                 for a in meta["checked_by"]:
                     out.append((a, "seeded-" + d, p))
                 continue
